@@ -61,6 +61,9 @@ pub struct RMsg {
     /// violations whose world was not sent (already sent often enough): key -> count
     pub suppressed: BTreeMap<String, u64>,
     pub outcomes: Vec<String>,
+    /// C05 reach measure: (key-set hash, iteration-order hash, map size), deduplicated per item
+    #[serde(default)]
+    pub map_orders: Vec<(u64, u64, u8)>,
     /// explicit worlds only: (world index, job index, request key, observation hash)
     #[serde(default)]
     pub obs: Vec<(usize, usize, u64, u64)>,
@@ -171,6 +174,11 @@ impl Worker {
             bump(&mut rm.stats, "probe.split_crlf", jr.rlog.split_crlf as u64);
             bump(&mut rm.stats, "probe.split_splice", jr.rlog.split_splice as u64);
             bump(&mut rm.stats, "probe.order_tie", jr.order_tie as u64);
+            for mo in &jr.map_orders {
+                if !rm.map_orders.contains(mo) {
+                    rm.map_orders.push(*mo);
+                }
+            }
             bump(&mut rm.stats, "probe.getrandom_calls", jr.getrandom_calls as u64);
             bump(&mut rm.stats, "probe.wall_clock_reads_by_code_under_test", jr.clock_reads as u64);
             bump(&mut rm.stats, "probe.getpid_reads_by_code_under_test", jr.pid_reads as u64);
